@@ -3,20 +3,21 @@ From Coq Require Import ZArith List Bool.
 From Coq Require String.
 From PS.model Require Import Smt Enc Ind Prog.
 From PS.spec Require Import Spec.
-From PS.proofs Require Import Base C09_proof Examples3.
+From PS.proofs Require Import Base C09_proof C09_levels Examples3.
 Import ListNotations.
 Open Scope Z_scope.
 
 (* For every problem state and every valuation admitted by the assertion set, for every buffer: the first
    reported level is the declared initial level, the last one the required final level, every reported level
-   lies within the declared bounds, and -- non-concurrent buffer whose accesses each have their own slot --
-   every reported change time is an access instant (start of an unloading task / end of a loading task) and the
-   change times are strictly increasing (never two accesses at one instant).
-   PARTIAL: the clauses "level after the k-th change = initial level + quantities of all accesses up to that
-   instant", "every access is a reported change", "accesses of a non-concurrent buffer pairwise distinct" and
-   the sortedness / membership clauses of concurrent buffers (bubble network) are in spec_C09_swept: swept
-   against the real constraint system on every run, proofs pending (DESIGN Appendix B.3 has the value-level
-   network proof).  Accesses by unscheduled optional tasks: known finding F13. *)
+   lies within the declared bounds.  For a non-concurrent buffer whose accesses each have their own slot: every
+   reported change time is an access instant (start of an unloading task / end of a loading task) and the change
+   times are strictly increasing; and when moreover all accessing tasks are mandatory: the level reported after the
+   k-th change equals the initial level plus the quantities of ALL accesses at instants up to that change time
+   (-q at the start of each unloading task, +q at the completion of each loading task), every access is a reported
+   change, and no two accesses happen at the same instant (sorted distinct copy = permutation, cumulative sums).
+   PARTIAL: for concurrent buffers (bubble network + quantified function definitions) and for buffers accessed by
+   optional tasks the level / coverage / sortedness clauses are in spec_C09_swept: swept against the real
+   constraint system on every run, not proved (known finding F13: unscheduled optional tasks still access). *)
 Theorem C09_buffers_partial : forall (st : pstate) (e : env),
   sat e (initialize st) ->
   forall k f, In (k, f) (spec_C09 st) -> feval e f = true.
